@@ -107,3 +107,34 @@ fn disconnect_drops_pending_challenge() {
         if matches!(peer.peer_status, PeerStatus::Connected) { witness(format!("peer in state {} is still connected after mark_as_disconnected", name)); }
     }
 }
+
+/// C17: only a verified response connects a peer — opening a handshake and answering a challenge leave the peer's status
+/// and key as they were (whatever they were) and leave a challenge pending
+#[tokio::test]
+#[serial_test::serial]
+async fn opening_or_answering_a_handshake_never_connects() {
+    use crate::core::msg::handshake::HandshakeChallenge;
+    let t = TestManager::default();
+    let (k1, _s1) = generate_keys();
+    let mut rng = Rng::from_env();
+    for round in 0..60 {
+        let mut peer = Peer::new(5);
+        if rng.below(2) == 0 { peer.public_key = Some(k1); }
+        if rng.below(3) == 0 { peer.challenge_for_peer = Some(rng.arr()); }
+        let status_before = format!("{:?}", peer.peer_status);
+        let key_before = peer.public_key;
+        let answering = rng.below(2) == 0;
+        let r = if answering {
+            let fut = std::panic::AssertUnwindSafe(peer.handle_handshake_challenge(HandshakeChallenge { challenge: rng.arr() }, t.network.io_interface.as_ref(), t.wallet_lock.clone(), replay_cfg()));
+            futures::FutureExt::catch_unwind(fut).await.map(|_| ())
+        } else {
+            let fut = std::panic::AssertUnwindSafe(peer.initiate_handshake(t.network.io_interface.as_ref()));
+            futures::FutureExt::catch_unwind(fut).await.map(|_| ())
+        };
+        let _io_gave_up = r.is_err();   // the test I/O handler leaves some calls as todo!(): what the peer did before that still counts
+        let what = if answering { "answering a handshake challenge" } else { "opening a handshake" };
+        if format!("{:?}", peer.peer_status) != status_before { witness(format!("round {}: {} changed the peer's status from {} to {:?}", round, what, status_before, peer.peer_status)); }
+        if peer.public_key != key_before { witness(format!("round {}: {} changed the key the peer is known under (from {:?} to {:?}) although nothing was verified", round, what, key_before.map(|k| k.to_base58()), peer.public_key.map(|k| k.to_base58()))); }
+        if !_io_gave_up && peer.challenge_for_peer.is_none() { witness(format!("round {}: no challenge is pending after {}", round, what)); }
+    }
+}
